@@ -96,8 +96,8 @@ CONTAINER_ATTR = {
     "tag": '#[serde(tag = "type")]', "optional_fields": "#[ts(optional_fields)]", "rename": '#[serde(rename = "RenamedType")]',
 }
 REPR_ATTR = {"ext": "", "int": '#[serde(tag = "t")]', "adj": '#[serde(tag = "t", content = "c")]', "unt": "#[serde(untagged)]"}
-FIELD_NAMES = ["field_one", "field_two", "field_three"]
-VARIANT_NAMES = ["VarOne", "VarTwo", "VarThree"]
+FIELD_NAMES = ["field_one", "_field_two", "field_three"]       # (one name that is not in the conventional case)
+VARIANT_NAMES = ["IOVarOne", "VarTwo", "VarThree"]        # (adjacent capitals: the case conversions differ on them)
 
 
 class Unit:
@@ -270,8 +270,8 @@ class Corpus:
         self.build_s = 0.0
         # a shard of more than ~700 kB of source makes rustc need several GB (the derive expands every item):
         # large corpora are cut into more shards
-        size = sum(len(u.src) + 200 for u in units)
-        self.nshards = max(NSHARDS, min(96, -(-size // 700000)))
+        size = sum(len(u.src) + 3 * sum(len(x) for x in u.samples) + 700 for u in units)
+        self.nshards = max(NSHARDS, min(192, -(-size // 350000)))
 
     def observe(self):
         """-> dict name -> {info, samples}; units rejected at compile time are in self.rejected"""
@@ -287,6 +287,12 @@ class Corpus:
         for attempt in range(6):
             shards = shards_of(units)
             _write_workspace(self.dir, shards, self.features, self.extra_deps, self.extra_prelude)
+            # rustc's memory grows faster than the size of a crate: no shard above ~450 kB of generated source
+            biggest = max(os.path.getsize(os.path.join(self.dir, "shard%d" % i, "src", "lib.rs")) for i in range(self.nshards))
+            if biggest > 450000 and self.nshards < 192:
+                self.nshards = min(192, -(-self.nshards * biggest // 350000))
+                shards = shards_of(units)
+                _write_workspace(self.dir, shards, self.features, self.extra_deps, self.extra_prelude)
             rc, errs, out = _cargo_build(self.dir)
             if rc == 0:
                 break
